@@ -1,16 +1,23 @@
 ------------------------------ MODULE Multipath ------------------------------
 (***************************************************************************)
-(* One SCION multipath measurement round:                                  *)
+(* SCION multipath measurement rounds and the path table they draw from:   *)
 (*   core/client/client.go       MeasureClockOffsetSCION,                  *)
 (*                               collectMeasurements                       *)
 (*   core/client/client_scion.go InterleavedModePath, ResetInterleavedMode *)
 (*   base/crypto/crypto.go       Sample, RandIntn (randInt31)              *)
 (*   core/measurements           FaultTolerantMidpoint (via Midpoint.tla)  *)
+(*   net/scion/pather.go         Pather.Paths, update (the path table)     *)
+(*   timeservice.go              ntpReferenceClockSCION.MeasureClockOffset *)
 (*                                                                         *)
-(* A behaviour is: choice of the round's input (offered paths with their   *)
-(* fingerprints, the clients and their interleaved-mode state, the clock   *)
-(* offset behind every path) followed by the statements of the function,   *)
-(* one action each:                                                        *)
+(* A behaviour is a sequence of rounds that share one path table:          *)
+(*   AddPath/PathsDone   update(): the daemon's answer replaces the table  *)
+(*                       (Refresh starts the next one, between rounds)     *)
+(*   AddClient           the clients of the round and their interleaved-   *)
+(*                       mode state (any; several reference clocks share   *)
+(*                       the table of their destination)                   *)
+(*   Call                ps := pather.Paths(ia): the round's working slice *)
+(*                       is whatever the table holds now                   *)
+(* followed by the statements of MeasureClockOffsetSCION, one action each: *)
 (*   Sticky/ResetClient  first loop, one client per step, swap-remove      *)
 (*   SampleCopy/Draw     crypto.Sample with its pick(dst, src) callback,   *)
 (*                       one RandIntn result per step (nondeterministic)   *)
@@ -19,11 +26,17 @@
 (*   Complete(c, ok)     one receive of collectMeasurements' select loop   *)
 (*   Cancel              the ctx.Done() branch of that loop                *)
 (*   Return              FaultTolerantMidpoint over ms                     *)
+(*   NextRound           the next call of MeasureClockOffset               *)
 (*                                                                         *)
-(* Paths are identified by their index 1..Len(offered) in the slice the    *)
-(* caller passed (fingerprints may repeat, indices do not).  Clients are   *)
-(* 1..nc in slice order.  Offsets are small even integers (one unit =      *)
-(* half a second in the harness), so every midpoint is exact.              *)
+(* Paths are identified by their index 1..Len(offered) in the daemon's     *)
+(* answer at the last refresh (fingerprints may repeat, indices do not);   *)
+(* the table and the working slice hold such indices.  The function        *)
+(* selects in place (swap-remove, Sample's picks): with PrivateSlice (the  *)
+(* code: Pather.Paths returns a copy) these writes stay in the round, with *)
+(* PrivateSlice = FALSE they land in the table's array and the next round  *)
+(* starts from them (Multipath_alias.cfg: the property section fails).     *)
+(* Clients are 1..nc in slice order.  Offsets are small even integers (one *)
+(* unit = half a second in the harness), so every midpoint is exact.       *)
 (* Property C15 is the section "Property section" below.                   *)
 (***************************************************************************)
 EXTENDS Integers, Sequences, FiniteSets, TLC
@@ -32,7 +45,11 @@ CONSTANTS MaxClients,      \* clients per round 0..MaxClients
           MaxPaths,        \* offered paths per round 0..MaxPaths
           ThetaVecs,       \* set of sequences (length >= MaxPaths): clock offset behind path index p
           AllCompletions,  \* TRUE: every completion order/outcome and Cancel; FALSE: all succeed, client order
-          FW               \* word size handed to Midpoint.tla (offsets lie well inside 2^(FW-2))
+          FW,              \* word size handed to Midpoint.tla (offsets lie well inside 2^(FW-2))
+          MaxRounds,       \* rounds per behaviour
+          MaxRefresh,      \* refreshes of the path table per behaviour (the first one fills it)
+          PrivateSlice,    \* TRUE (the code): a round works on a copy of the table; FALSE: on the table's array
+          KeepHist         \* TRUE: remember the finished rounds (generator of multi-round behaviours)
 
 MP == INSTANCE Midpoint WITH W <- FW, Vals <- {}, MaxN <- 0, s <- << >>
 
@@ -41,7 +58,11 @@ Fresh == 0                 \* InterleavedModePath() = "": not in interleaved mod
 
 VARIABLES
   pc,        \* control state
-  offered,   \* Seq(fingerprint): ps as passed by the caller; path index p has fingerprint offered[p]
+  offered,   \* Seq(fingerprint): the daemon's answer at the last refresh; path index p has fingerprint offered[p]
+  table,     \* Seq(path index): p.paths[dst], what Pather.Paths hands out
+  round,     \* number of the current round (1..MaxRounds)
+  nref,      \* refreshes so far
+  hist,      \* history: refreshes and finished rounds (only with KeepHist)
   theta,     \* Seq(Int): clock offset of the server as seen over path index p
   nc,        \* number of clients
   mode0,     \* Seq: per client Fresh or the fingerprint of its previous exchange, at call time
@@ -62,8 +83,9 @@ VARIABLES
   cancelled, \* the ctx.Done() branch was taken
   ret        \* NoRet | [err |-> "none" | "nopath", off |-> Int]
 
+sess == <<round, nref, hist>>
 vars == <<pc, offered, theta, nc, mode0, mode, ps, sps, nsps, ci, k, rng, picks, resets, fresets,
-          launched, outcome, order, ms, cancelled, ret>>
+          launched, outcome, order, ms, cancelled, ret, table, sess>>
 
 NoRet == [err |-> "running", off |-> 0]
 Clients == 1 .. nc
@@ -119,6 +141,7 @@ Init ==
   /\ ci = 0 /\ k = 0 /\ rng = << >> /\ picks = << >>
   /\ resets = << >> /\ fresets = << >> /\ launched = {} /\ outcome = << >>
   /\ order = << >> /\ ms = << >> /\ cancelled = FALSE /\ ret = NoRet
+  /\ table = << >> /\ round = 1 /\ nref = 1 /\ hist = << >>
 
 MaxFpOf(o) == IF o = << >> THEN 0 ELSE MP!Max(Range(o))
 
@@ -126,12 +149,16 @@ AddPath ==
   /\ pc = "paths" /\ Len(offered) < MaxPaths
   /\ \E f \in 1 .. (MaxFpOf(offered) + 1) : offered' = Append(offered, f)
   /\ UNCHANGED <<pc, theta, nc, mode0, mode, ps, sps, nsps, ci, k, rng, picks, resets, fresets,
-                 launched, outcome, order, ms, cancelled, ret>>
+                 launched, outcome, order, ms, cancelled, ret, table, sess>>
 
+\* update(): p.paths = paths (the table is replaced as a whole, under the mutex)
+Identity(n) == [p \in 1 .. n |-> p]
 PathsDone ==
   /\ pc = "paths" /\ pc' = "clients"
+  /\ table' = Identity(Len(offered))
+  /\ hist' = IF KeepHist THEN Append(hist, [ev |-> "refresh", offered |-> offered]) ELSE hist
   /\ UNCHANGED <<offered, theta, nc, mode0, mode, ps, sps, nsps, ci, k, rng, picks, resets, fresets,
-                 launched, outcome, order, ms, cancelled, ret>>
+                 launched, outcome, order, ms, cancelled, ret, round, nref>>
 
 AddClient ==
   /\ pc = "clients" /\ nc < MaxClients
@@ -140,17 +167,18 @@ AddClient ==
        /\ mode' = Append(mode, m)
   /\ nc' = nc + 1
   /\ UNCHANGED <<pc, offered, theta, ps, sps, nsps, ci, k, rng, picks, resets, fresets,
-                 launched, outcome, order, ms, cancelled, ret>>
+                 launched, outcome, order, ms, cancelled, ret, table, sess>>
 
+\* timeservice.go: ps = c.pather.Paths(c.remoteAddr.IA), handed to MeasureClockOffsetSCION;
 \* entry of MeasureClockOffsetSCION: sps := make([]snet.Path, len(ntpcs)); nsps := 0
 Call ==
   /\ pc = "clients" /\ pc' = "sticky"
   /\ \E tv \in ThetaVecs : theta' = SubSeq(tv, 1, Len(offered))
-  /\ ps' = [p \in 1 .. Len(offered) |-> p]
+  /\ ps' = table
   /\ sps' = Zeros(nc) /\ nsps' = 0 /\ ci' = 1
   /\ resets' = Zeros(nc) /\ fresets' = Zeros(nc)
   /\ outcome' = [c \in 1 .. nc |-> "none"]
-  /\ UNCHANGED <<offered, nc, mode0, mode, k, rng, picks, launched, order, ms, cancelled, ret>>
+  /\ UNCHANGED <<offered, nc, mode0, mode, k, rng, picks, launched, order, ms, cancelled, ret, table, sess>>
 
 (***************************************************************************)
 (* First loop: for i, c := range ntpcs                                     *)
@@ -163,6 +191,13 @@ FirstMatch(psv, pf) ==
 \* ps[j] = ps[len(ps)-1]; ps = ps[:len(ps)-1]
 SwapRemove(psv, j) == SubSeq([psv EXCEPT ![j] = psv[Len(psv)]], 1, Len(psv) - 1)
 
+\* The working slice is a prefix view ps[:len] of one array.  When that array
+\* is the table's own (PrivateSlice = FALSE), every element write is a write
+\* to the table; the truncation changes the view only.
+Written(tb, newps) ==
+  IF PrivateSlice THEN tb
+  ELSE [i \in DOMAIN tb |-> IF i <= Len(newps) THEN newps[i] ELSE tb[i]]
+
 Sticky ==
   /\ pc = "sticky" /\ ci <= nc
   /\ mode[ci] # Fresh
@@ -170,10 +205,11 @@ Sticky ==
      /\ j # 0
      /\ sps' = [sps EXCEPT ![ci] = ps[j]]
      /\ ps' = SwapRemove(ps, j)
+     /\ table' = Written(table, SwapRemove(ps, j))
   /\ nsps' = nsps + 1
   /\ ci' = ci + 1
   /\ UNCHANGED <<pc, offered, theta, nc, mode0, mode, k, rng, picks, resets, fresets,
-                 launched, outcome, order, ms, cancelled, ret>>
+                 launched, outcome, order, ms, cancelled, ret, sess>>
 
 \* if sps[i] == nil { c.ResetInterleavedMode(); if c.Filter != nil { c.Filter.Reset() } }
 ResetClient ==
@@ -184,7 +220,7 @@ ResetClient ==
   /\ fresets' = [fresets EXCEPT ![ci] = @ + 1]
   /\ ci' = ci + 1
   /\ UNCHANGED <<pc, offered, theta, nc, mode0, ps, sps, nsps, k, rng, picks,
-                 launched, outcome, order, ms, cancelled, ret>>
+                 launched, outcome, order, ms, cancelled, ret, table, sess>>
 
 (***************************************************************************)
 (* n, err := crypto.Sample(ctx, len(sps)-nsps, len(ps), pick)              *)
@@ -197,17 +233,18 @@ SampleCopy ==
      /\ picks' = [i \in 1 .. kk |-> <<i - 1, i - 1>>]
   /\ pc' = "sample"
   /\ UNCHANGED <<offered, theta, nc, mode0, mode, ps, sps, nsps, rng, resets, fresets,
-                 launched, outcome, order, ms, cancelled, ret>>
+                 launched, outcome, order, ms, cancelled, ret, table, sess>>
 
 Draw ==
   /\ pc = "sample" /\ ci # Len(ps)
   /\ \E j \in 0 .. ci :               \* j, err := RandIntn(ctx, i+1)
        /\ rng' = Append(rng, j)
        /\ ps' = SampleStep(ps, k, ci, j)
+       /\ table' = Written(table, SampleStep(ps, k, ci, j))
        /\ picks' = IF j < k THEN Append(picks, <<j, ci>>) ELSE picks
   /\ ci' = ci + 1
   /\ UNCHANGED <<pc, offered, theta, nc, mode0, mode, sps, nsps, k, resets, fresets,
-                 launched, outcome, order, ms, cancelled, ret>>
+                 launched, outcome, order, ms, cancelled, ret, sess>>
 
 \* if nsps+n == 0 { return errNoPath }
 NoPath ==
@@ -216,7 +253,7 @@ NoPath ==
   /\ ret' = [err |-> "nopath", off |-> 0]
   /\ pc' = "done"
   /\ UNCHANGED <<offered, theta, nc, mode0, mode, ps, sps, nsps, ci, k, rng, picks, resets, fresets,
-                 launched, outcome, order, ms, cancelled>>
+                 launched, outcome, order, ms, cancelled, table, sess>>
 
 \* for i, j := 0, 0; j != n; j++ { for sps[i] != nil { i++ }; sps[i] = ps[j]; nsps++ }
 FreeClients(sp) ==
@@ -231,7 +268,7 @@ AssignRest ==
   /\ nsps' = nsps + k
   /\ pc' = "launch"
   /\ UNCHANGED <<offered, theta, nc, mode0, mode, ps, ci, k, rng, picks, resets, fresets,
-                 launched, outcome, order, ms, cancelled, ret>>
+                 launched, outcome, order, ms, cancelled, ret, table, sess>>
 
 (***************************************************************************)
 (* ms := make([]Measurement, nsps); one goroutine per client with a path;  *)
@@ -243,7 +280,7 @@ Launch ==
   /\ outcome' = [c \in Clients |-> IF sps[c] # 0 THEN "pending" ELSE "none"]
   /\ pc' = "collect"
   /\ UNCHANGED <<offered, theta, nc, mode0, mode, ps, sps, nsps, ci, k, rng, picks, resets, fresets,
-                 order, ms, cancelled, ret>>
+                 order, ms, cancelled, ret, table, sess>>
 
 \* case m := <-msc: if m.Error == nil { ms[j] = m; j++ }; i++
 \* (a successful measurement over path p yields the offset theta[p])
@@ -256,7 +293,7 @@ Complete(c, ok) ==
   /\ ms' = IF ok THEN Append(ms, theta[sps[c]]) ELSE ms
   /\ order' = Append(order, <<c, ok>>)
   /\ UNCHANGED <<pc, offered, theta, nc, mode0, mode, ps, sps, nsps, ci, k, rng, picks, resets, fresets,
-                 launched, cancelled, ret>>
+                 launched, cancelled, ret, table, sess>>
 
 \* case <-ctx.Done(): break loop   (the remaining results are drained, never used)
 Cancel ==
@@ -265,7 +302,7 @@ Cancel ==
   /\ cancelled' = TRUE
   /\ outcome' = [c \in Clients |-> IF outcome[c] = "pending" THEN "late" ELSE outcome[c]]
   /\ UNCHANGED <<pc, offered, theta, nc, mode0, mode, ps, sps, nsps, ci, k, rng, picks, resets, fresets,
-                 launched, order, ms, ret>>
+                 launched, order, ms, ret, table, sess>>
 
 \* m := FaultTolerantMidpoint(ms); return m.Timestamp, m.Offset, m.Error
 \* ms has nsps entries; the entries collectMeasurements did not fill are zero values
@@ -276,18 +313,53 @@ Return ==
   /\ ret' = [err |-> "none", off |-> MP!FTM(Padded)]
   /\ pc' = "done"
   /\ UNCHANGED <<offered, theta, nc, mode0, mode, ps, sps, nsps, ci, k, rng, picks, resets, fresets,
-                 launched, outcome, order, ms, cancelled>>
+                 launched, outcome, order, ms, cancelled, table, sess>>
+
+(***************************************************************************)
+(* Between rounds.  The next call of MeasureClockOffset (by this or by     *)
+(* another reference clock of the same destination) finds the table as it  *)
+(* is; the refresher (StartPather's ticker goroutine) may have replaced it *)
+(* in between.  What a finished round leaves behind is forgotten, except   *)
+(* the table.                                                              *)
+(***************************************************************************)
+\* the round selected in place: its working slice is no longer a prefix of the table it started from
+Dirty == \E i \in DOMAIN ps : ps[i] # i
+Summary ==
+  [ev |-> "round", nc |-> nc, offered |-> offered, mode |-> mode0, theta |-> theta, rng |-> rng, k |-> k,
+   asg |-> sps, picks |-> picks, resets |-> resets, fresets |-> fresets, order |-> order,
+   cancelled |-> cancelled, outcome |-> outcome, err |-> ret.err, off |-> ret.off, dirty |-> Dirty]
+
+EndRound(nextpc) ==
+  /\ pc = "done" /\ round < MaxRounds
+  /\ round' = round + 1
+  /\ hist' = IF KeepHist THEN Append(hist, Summary) ELSE hist
+  /\ pc' = nextpc
+  /\ theta' = << >> /\ nc' = 0 /\ mode0' = << >> /\ mode' = << >> /\ ps' = << >> /\ sps' = << >> /\ nsps' = 0
+  /\ ci' = 0 /\ k' = 0 /\ rng' = << >> /\ picks' = << >> /\ resets' = << >> /\ fresets' = << >>
+  /\ launched' = {} /\ outcome' = << >> /\ order' = << >> /\ ms' = << >> /\ cancelled' = FALSE /\ ret' = NoRet
+
+NextRound == EndRound("clients") /\ UNCHANGED <<offered, table, nref>>
+
+\* update() asks the daemon again; its answer is built by AddPath and installed by PathsDone
+Refresh ==
+  /\ nref < MaxRefresh
+  /\ EndRound("paths")
+  /\ offered' = << >> /\ nref' = nref + 1
+  /\ UNCHANGED table
 
 Next ==
   \/ AddPath \/ PathsDone \/ AddClient \/ Call
   \/ Sticky \/ ResetClient \/ SampleCopy \/ Draw \/ NoPath \/ AssignRest
   \/ Launch \/ (\E c \in Clients, ok \in BOOLEAN : Complete(c, ok)) \/ Cancel \/ Return
+  \/ NextRound \/ Refresh
 
 Spec == Init /\ [][Next]_vars
 
 (***************************************************************************)
 (* Property section (C15).  Everything here is phrased over the input of   *)
-(* the round (offered, mode0, theta), which path each participating client *)
+(* the round (offered: the paths the daemon offered at the last refresh of *)
+(* the table the round draws from; mode0, theta), which of these paths     *)
+(* each participating client                                               *)
 (* probed (asg), which clients were reset (rst / frst), which clients'     *)
 (* measurements succeeded (okc) and what the round returned; the same      *)
 (* operators are evaluated on recorded rounds by MultipathTrace.tla.       *)
@@ -347,9 +419,12 @@ NoPathError     == pc = "done" => (NoPathErrorP(offered, ret) /\ (ret.err = "nop
 \* implementation facts the harness relies on (not part of C15)
 TypeOK ==
   /\ pc \in {"paths", "clients", "sticky", "sample", "launch", "collect", "done"}
-  /\ Len(ps) <= Len(offered)
-  /\ \A x \in DOMAIN ps : ps[x] \in DOMAIN offered
+  /\ pc # "paths" => Len(ps) <= Len(offered)
+  /\ pc # "paths" => \A x \in DOMAIN ps : ps[x] \in DOMAIN offered
   /\ pc \in {"sticky"} => (\A x, y \in DOMAIN ps : x # y => ps[x] # ps[y])
+  /\ round \in 1 .. MaxRounds /\ nref \in 1 .. MaxRefresh
+\* between refreshes every round starts from the daemon's answer: no round leaves anything in the table
+TableIntact == pc # "paths" => table = Identity(Len(offered))
 ResetExactlyNonSticky ==
   Assigned => \A c \in Clients :
     /\ resets[c] = (IF mode[c] # Fresh THEN 0 ELSE 1) /\ fresets[c] = resets[c]
